@@ -244,33 +244,33 @@ theorem select_eq_some (pool : Pool) (s : Source) (i : Nat) :
   · rintro ⟨f, h⟩
     exact ⟨(i, f), h, rfl⟩
 
-theorem resolves_table (S : Sources) (n : String) (fs : Fields) : resolves S (.table n fs) = adv S (.table n fs) := by
-  unfold resolves parse
+theorem resolves_table (S : Sources) (n : String) (fs : Fields) : resolvesSkeleton S (.table n fs) = adv S (.table n fs) := by
+  unfold resolvesSkeleton parseSkeleton
   cases adv S (.table n fs) <;> simp
 
-theorem resolves_ref (S : Sources) (inst : Source) (n : String) : resolves S (.ref inst n) = resolves S inst := by
-  unfold resolves
-  rw [parse]
-  cases parse S inst <;> simp
+theorem resolves_ref (S : Sources) (inst : Source) (n : String) : resolvesSkeleton S (.ref inst n) = resolvesSkeleton S inst := by
+  unfold resolvesSkeleton
+  rw [parseSkeleton]
+  cases parseSkeleton S inst <;> simp
 
 theorem resolves_join (S : Sources) (l r : Source) (k : JoinKind) (c : FeatureOpt) :
-    resolves S (.join l r k c) = (resolves S l && resolves S r) := by
-  unfold resolves
-  rw [parse]
-  cases parse S l <;> cases parse S r <;> simp
+    resolvesSkeleton S (.join l r k c) = (resolvesSkeleton S l && resolvesSkeleton S r) := by
+  unfold resolvesSkeleton
+  rw [parseSkeleton]
+  cases parseSkeleton S l <;> cases parseSkeleton S r <;> simp
 
 theorem resolves_set (S : Sources) (l r : Source) (k : SetKind) :
-    resolves S (.set l r k) = (resolves S l && resolves S r) := by
-  unfold resolves
-  rw [parse]
-  cases parse S l <;> cases parse S r <;> simp
+    resolvesSkeleton S (.set l r k) = (resolvesSkeleton S l && resolvesSkeleton S r) := by
+  unfold resolvesSkeleton
+  rw [parseSkeleton]
+  cases parseSkeleton S l <;> cases parseSkeleton S r <;> simp
 
 theorem resolves_query (S : Sources) (src : Source) (sel : Features) (pre : FeatureOpt) (grp : Features)
     (post : FeatureOpt) (ord : Orderings) (rows : Option Rows) :
-    resolves S (.query src sel pre grp post ord rows) = resolves S src := by
-  unfold resolves
-  rw [parse]
-  cases parse S src <;> simp
+    resolvesSkeleton S (.query src sel pre grp post ord rows) = resolvesSkeleton S src := by
+  unfold resolvesSkeleton
+  rw [parseSkeleton]
+  cases parseSkeleton S src <;> simp
 
 theorem coversSpec_of_tables (S : Sources) : ∀ s, (tables s).all (adv S) = true → coversSpec S s = true
   | .table n fs => by simp [tables, coversSpec]
